@@ -132,6 +132,17 @@ func numericSpecs() map[string]*specs.Spec {
 		sp := baseSpec()
 		f(&sp.Devices[0].ContainerEdits)
 		out[name] = sp
+		// the same values in documents of other shapes: optional members of the document absent (an
+		// encoder that treats a document without them differently must still write the values right)
+		a := baseSpec()
+		f(&a.Devices[0].ContainerEdits)
+		a.ContainerEdits = specs.ContainerEdits{}
+		out[name+"+no-spec-level-edits"] = a
+		b := baseSpec()
+		f(&b.Devices[0].ContainerEdits)
+		b.ContainerEdits, b.Annotations, b.Devices = specs.ContainerEdits{}, nil, b.Devices[:1]
+		b.Devices[0].Annotations = nil
+		out[name+"+minimal-document"] = b
 	}
 	mk("major-minor-max", func(e *specs.ContainerEdits) { e.DeviceNodes[0].Major, e.DeviceNodes[0].Minor = math.MaxInt64, math.MaxInt64 })
 	mk("major-minor-min", func(e *specs.ContainerEdits) { e.DeviceNodes[0].Major, e.DeviceNodes[0].Minor = math.MinInt64, -1 })
